@@ -294,6 +294,9 @@ PROPS["C10"]["rule"] += " gowrap: the Circuit.Go scenarios of C18, judged for pa
 PROPS["C10"]["components"].append(PanicMeta(1500, 40000))
 PROPS["C10"]["rule"] += " panic-meta: every generated history in which a run function panicked is re-run on the real code with that call replaced by the passage of the same time; all later answers must be identical (metamorphic form of 'as if the panicking call had not happened')."
 
+for _pid in ("C02", "C09"):
+    PROPS[_pid]["components"].append(Sched("reopen", 1500, 60000, only=_pid + ":", pb1=((40, 1500), (400, 40000))))
+    PROPS[_pid]["rule"] += " reopen (schedules): on an open circuit whose real hystrix opener holds stale failures from half-open probes, one CloseCircuit races one or two calls; with fewer failing callers than the volume threshold the circuit must end closed (the opener counts since the last transition)."
 for _pid in ("C02", "C03", "C11", "C16", "C20"):
     PROPS[_pid]["components"].append(Sched("lcfg2", 1200, 50000, only=_pid + ":", pb1=((40, 1500), (400, 40000))))
     PROPS[_pid]["rule"] += " lcfg2 (schedules): two overlapping SetConfigThreadSafe calls on one built-in closer / opener / SLO tracker; once both returned, what Config() reports must be what the object enforces (sleep window, probe budget, required successes, volume threshold, healthy time)."
